@@ -98,10 +98,71 @@ pub fn run(max_windows: u64) -> WorldOutcome {
         let mut blocks_by_slot: BTreeMap<u64, Vec<(Blk, Blk)>> = BTreeMap::new();
         let mut chain_tip: Blk = (0, 0);
         let mut built: BTreeMap<Blk, wire::BuiltBlock> = BTreeMap::new();
+        // calm environments follow the protocol (one block per slot on the chain, everybody votes on
+        // time) except in contested slots, so that the node is on the happy path when trouble starts
+        let calm = kernel::choose(E, 3) == 1;
+        if calm {
+            kernel::fault("calm_environment_with_contested_slots");
+        }
         for s in 1..=last_slot {
             let t_s = 300 + 450 * s;
             let leader = ((s / 4) % n as u64) as usize;
-            let nblocks = [1u64, 1, 1, 2, 0][kernel::choose(E, 5) as usize];
+            let nblocks = if calm { [1u64, 1, 1, 2][kernel::choose(E, 4) as usize] } else { [1u64, 1, 1, 2, 0][kernel::choose(E, 5) as usize] };
+            // a *contested* slot: the leader equivocates, the node gets the first block by dissemination,
+            // a large minority notarizes the second one early, the first one's certificate comes late
+            let contested = nblocks == 2 && chain_tip != (0, 0) && chain_tip.0 < s && (calm || kernel::choose(E, 2) == 1);
+            if contested {
+                kernel::fault("contested_slot_scripted");
+                kernel::event(&format!("contested slot {s} (parent {chain_tip:?})"));
+                let kp = keys::keypair(leader);
+                let pid: BlockId = (Slot::new(chain_tip.0), hashes[&chain_tip].clone());
+                for t in 1..=2u64 {
+                    let blk = wire::simple_block(Slot::new(s), pid.clone(), 1, 0xC05 + s * 10 + t, &kp.sk);
+                    hashes.insert((s, t), blk.hash.clone());
+                    built.insert((s, t), blk);
+                    blocks_by_slot.entry(s).or_default().push(((s, t), chain_tip));
+                }
+                script.push((t_s + kernel::choose(E, 100), In::Block { b: (s, 1), parent: chain_tip }));
+                // the parent is certified in time
+                script.push((t_s.saturating_sub(200), In::Cert { ck: CK::NotarFallback, slot: chain_tip.0, tag: chain_tip.1 }));
+                let mut order: Vec<usize> = (0..n).filter(|i| *i != real).collect();
+                for i in (1..order.len()).rev() {
+                    let j = i - kernel::choose(E, (i + 1) as u64) as usize;
+                    order.swap(i, j);
+                }
+                let mut minority = 0u64;
+                for v in order {
+                    if minority * 5 < total * 2 {
+                        minority += stakes[v];
+                        script.push((t_s + 100 + kernel::choose(E, 300), In::Vote { v, kind: VK::Notar, slot: s, tag: 2 }));
+                    } else {
+                        script.push((t_s + 100 + kernel::choose(E, 1100), In::Vote { v, kind: VK::Notar, slot: s, tag: 1 }));
+                    }
+                }
+                script.push((t_s + 700 + kernel::choose(E, 1500), In::Cert { ck: CK::Notar, slot: s, tag: 1 }));
+                if calm || kernel::choose(E, 2) == 1 {
+                    chain_tip = (s, 1);
+                }
+                continue;
+            }
+            if calm {
+                let kp = keys::keypair(leader);
+                let pid: BlockId = (Slot::new(chain_tip.0), hashes[&chain_tip].clone());
+                let blk = wire::simple_block(Slot::new(s), pid, 1, 0xC05 + s * 10 + 1, &kp.sk);
+                hashes.insert((s, 1), blk.hash.clone());
+                built.insert((s, 1), blk);
+                blocks_by_slot.entry(s).or_default().push(((s, 1), chain_tip));
+                script.push((t_s + kernel::choose(E, 100), In::Block { b: (s, 1), parent: chain_tip }));
+                chain_tip = (s, 1);
+                for v in 0..n {
+                    if v == real {
+                        continue;
+                    }
+                    script.push((t_s + 50 + kernel::choose(E, 200), In::Vote { v, kind: VK::Notar, slot: s, tag: 1 }));
+                    script.push((t_s + 300 + kernel::choose(E, 200), In::Vote { v, kind: VK::Final, slot: s, tag: 0 }));
+                }
+                continue;
+            }
             for t in 1..=nblocks {
                 // parent: the chain tip (proper), or some other earlier block / genesis (possibly improper)
                 let parent = match kernel::choose(E, 5) {
